@@ -95,8 +95,8 @@ pub fn event(shape: &Shape) -> Value {
 }
 
 fn random_fns(rng: &mut Rng) -> Vec<(bool, bool, usize, Vec<(bool, usize)>)> {
-    (0..rng.below(3)).map(|_| (rng.chance(3, 4), rng.chance(3, 4), rng.below(3),
-        (0..rng.below(3)).map(|_| (rng.chance(3, 4), rng.below(3))).collect())).collect()
+    (0..rng.count_mod(3)).map(|_| (rng.chance(3, 4), rng.chance(3, 4), rng.count_mod(3),
+        (0..rng.count_mod(3)).map(|_| (rng.chance(3, 4), rng.count_mod(3))).collect())).collect()
 }
 
 /// ModuleHeader accessors (specification growth beyond the listed properties): version(), generator(), set_version
@@ -170,10 +170,22 @@ pub fn drive(args: &[String]) {
             emit(&s, &mut out); shapes += 1;
         }
     }
+    // far beyond the small shapes: one dimension at a time at a power of two and its neighbours (a section, the number of
+    // functions, of parameters, of blocks, of instructions in a block)
+    let mut bigs = vec![8usize, 16, 17, 32, 33, 64, 65];
+    if mode == "thorough" { bigs.extend([127, 128, 129, 255, 256, 257, 300]); }
+    for &n in &bigs {
+        for i in 0..10 { if (i + n) % 3 == 0 { let mut sec = [1usize; 10]; sec[i] = n; emit(&Shape { sections: sec, header: true, mm: true, fns: random_fns(&mut rng) }, &mut out); shapes += 1; } }
+        emit(&Shape { sections: [1; 10], header: true, mm: true, fns: (0..n).map(|k| (true, k % 5 != 4, k % 3, vec![(true, k % 2), (k % 4 != 3, 1)])).collect() }, &mut out);
+        emit(&Shape { sections: [0; 10], header: n % 2 == 0, mm: false, fns: vec![(true, true, n, vec![(true, 1)]), (true, true, 1, (0..n).map(|k| (k % 7 != 6, k % 3)).collect())] }, &mut out);
+        emit(&Shape { sections: [2; 10], header: true, mm: true, fns: vec![(true, true, 0, vec![(true, n), (true, 2)]), (false, true, 0, vec![(false, n)])] }, &mut out);
+        shapes += 3;
+    }
     let n = arg_num(args, "--random", 1500) as usize;
     for _ in 0..n {
+        scale_reset_mod();
         let mut sec = [0usize; 10];
-        for s in sec.iter_mut() { *s = rng.below(3); }
+        for s in sec.iter_mut() { *s = rng.count_mod(3); }
         let s = Shape { sections: sec, header: rng.chance(1, 2), mm: rng.chance(1, 2), fns: random_fns(&mut rng) };
         emit(&s, &mut out); shapes += 1;
     }
